@@ -16,7 +16,9 @@ use crate::rng::Rng;
 use crate::util::{hex, nat_list, unhex};
 use crate::{Ctx, Tier};
 use futures::StreamExt;
-use scylla::errors::{NextPageError, NextRowError, RequestAttemptError, RequestError};
+use scylla::client::session::Session;
+use scylla::client::session_builder::SessionBuilder;
+use scylla::errors::{NextPageError, NextRowError, PagerExecutionError, RequestAttemptError, RequestError};
 use scylla_cql_core::serialize::row::SerializedValues;
 use scylla::statement::prepared::PreparedStatement;
 use scylla::statement::unprepared::Statement;
@@ -49,6 +51,8 @@ enum Consumer {
 }
 
 struct Case {
+    /// `pg`: single-connection pager; `sess`: `Session::execute_iter` against a one-node mock cluster
+    session: bool,
     skip: bool,
     consumer: Consumer,
     pages: Vec<PageSpec>,
@@ -66,6 +70,10 @@ fn fmt_page(p: &PageSpec) -> String {
     format!("{}:{}:{}", p.rows, fmt_state(&p.state), f)
 }
 
+fn fmt_sess_case(skip: bool, consumer: Consumer, pages: &[PageSpec]) -> String {
+    fmt_case(skip, consumer, pages).replacen("pg ", "sess ", 1)
+}
+
 fn fmt_case(skip: bool, consumer: Consumer, pages: &[PageSpec]) -> String {
     let c = match consumer {
         Consumer::Eager => "eager".to_owned(),
@@ -77,9 +85,10 @@ fn fmt_case(skip: bool, consumer: Consumer, pages: &[PageSpec]) -> String {
 
 fn parse_case(line: &str) -> Option<Case> {
     let w: Vec<&str> = line.split_whitespace().collect();
-    if w.len() < 4 || w[0] != "pg" {
+    if w.len() < 4 || (w[0] != "pg" && w[0] != "sess") {
         return None;
     }
+    let session = w[0] == "sess";
     let skip = match w[1] {
         "0" => false,
         "1" => true,
@@ -102,7 +111,7 @@ fn parse_case(line: &str) -> Option<Case> {
         let faults: Vec<char> = if parts[2] == "-" { vec![] } else { parts[2].chars().collect() };
         pages.push(PageSpec { rows, state, faults });
     }
-    Some(Case { skip, consumer, pages })
+    Some(Case { session, skip, consumer, pages })
 }
 
 // ---------------------------------------------------------------------------------------------
@@ -127,11 +136,86 @@ fn cols() -> Vec<Col> {
     vec![Col { name: "a".into(), type_id: 0x0009 }]
 }
 
+// --- the two control-connection queries of a Session (system.peers: no rows; system.local: this node) ---
+
+const T_UUID: &[u8] = &[0x00, 0x0C];
+const T_INET: &[u8] = &[0x00, 0x10];
+const T_TEXT: &[u8] = &[0x00, 0x0D];
+const T_SET_TEXT: &[u8] = &[0x00, 0x22, 0x00, 0x0D];
+
+fn node_cols(local: bool) -> Vec<(&'static str, &'static [u8])> {
+    let mut v = vec![("host_id", T_UUID), ("rpc_address", T_INET), ("data_center", T_TEXT), ("rack", T_TEXT), ("tokens", T_SET_TEXT)];
+    if local {
+        v.push(("cluster_name", T_TEXT));
+    }
+    v
+}
+
+fn write_meta_raw(b: &mut Vec<u8>, cols: &[(&str, &[u8])], table: &str, no_metadata: bool) {
+    w_int(b, if no_metadata { 0x0004 } else { 0x0001 });
+    w_int(b, cols.len() as i32);
+    if !no_metadata {
+        w_string(b, "system");
+        w_string(b, table);
+        for (name, ty) in cols {
+            w_string(b, name);
+            b.extend_from_slice(ty);
+        }
+    }
+}
+
+fn body_prepared_raw(id: &[u8], cols: &[(&str, &[u8])], table: &str) -> Vec<u8> {
+    let mut b = Vec::new();
+    w_int(&mut b, 4);
+    w_short_bytes(&mut b, id);
+    w_int(&mut b, 0x0001); // prepared metadata: global table spec, no bind markers, no pk indexes
+    w_int(&mut b, 0);
+    w_int(&mut b, 0);
+    w_string(&mut b, "system");
+    w_string(&mut b, table);
+    write_meta_raw(&mut b, cols, table, false);
+    b
+}
+
+fn body_node_rows(local: bool, no_metadata: bool) -> Vec<u8> {
+    let mut b = Vec::new();
+    w_int(&mut b, 2);
+    write_meta_raw(&mut b, &node_cols(local), if local { "local" } else { "peers" }, no_metadata);
+    if !local {
+        w_int(&mut b, 0);
+        return b;
+    }
+    w_int(&mut b, 1);
+    w_bytes(&mut b, Some(&[0x11; 16]));
+    w_bytes(&mut b, Some(&[127, 0, 0, 1]));
+    w_bytes(&mut b, Some(b"dc1"));
+    w_bytes(&mut b, Some(b"r1"));
+    let mut set = Vec::new();
+    w_int(&mut set, 1);
+    w_bytes(&mut set, Some(b"0"));
+    w_bytes(&mut b, Some(&set));
+    w_bytes(&mut b, Some(b"mock"));
+    b
+}
+
 fn handler(script: Arc<Mutex<Script>>) -> Handler {
+    let mut control: Vec<(Vec<u8>, bool)> = Vec::new(); // prepared id -> is system.local
     Box::new(move |req: &Request| match &req.parsed {
+        Parsed::Prepare { text } if text.contains("system.peers") || text.contains("system.local") => {
+            let local = text.contains("system.local");
+            let id = md5ish(text);
+            if !control.iter().any(|(i, _)| *i == id) {
+                control.push((id.clone(), local));
+            }
+            vec![Action::Respond(RESP_RESULT, body_prepared_raw(&id, &node_cols(local), if local { "local" } else { "peers" }))]
+        }
         Parsed::Prepare { text } => {
             let rm = ResultMeta { cols: Some(cols()), col_count: 1, ..Default::default() };
             vec![Action::Respond(RESP_RESULT, body_prepared(&md5ish(text), None, &[], &[], &rm))]
+        }
+        Parsed::Execute { id, params, .. } if control.iter().any(|(i, _)| i == id) => {
+            let local = control.iter().find(|(i, _)| i == id).unwrap().1;
+            vec![Action::Respond(RESP_RESULT, body_node_rows(local, params.skip_metadata))]
         }
         Parsed::Execute { id, params, .. } => {
             let mut s = script.lock().unwrap();
@@ -155,6 +239,16 @@ fn handler(script: Arc<Mutex<Script>>) -> Handler {
                         let mut extra = Vec::new();
                         w_short(&mut extra, 0x0001);
                         w_int(&mut extra, 0);
+                        w_int(&mut extra, 1);
+                        extra.push(0);
+                        actions.push(Action::Respond(RESP_ERROR, body_error(0x1200, "read timeout", &extra)));
+                        return actions;
+                    }
+                    Some('R') => {
+                        // enough replies, only digests: the one ReadTimeout the default retry policy retries
+                        let mut extra = Vec::new();
+                        w_short(&mut extra, 0x0001);
+                        w_int(&mut extra, 1);
                         w_int(&mut extra, 1);
                         extra.push(0);
                         actions.push(Action::Respond(RESP_ERROR, body_error(0x1200, "read timeout", &extra)));
@@ -209,15 +303,30 @@ fn handler(script: Arc<Mutex<Script>>) -> Handler {
 // environment kept across cases (one runtime, one mock node, one connection per hx process)
 // ---------------------------------------------------------------------------------------------
 
+enum Client {
+    Conn(VerifConn),
+    Sess(Session),
+}
+
 struct Env {
     node: MockNode,
     script: Arc<Mutex<Script>>,
-    conn: Option<(VerifConn, PreparedStatement)>,
+    conn: Option<(Client, PreparedStatement)>,
 }
 
 thread_local! {
     static RT: tokio::runtime::Runtime = tokio::runtime::Builder::new_current_thread().enable_all().build().unwrap();
     static ENV: RefCell<Option<Env>> = const { RefCell::new(None) };
+    static SENV: RefCell<Option<Env>> = const { RefCell::new(None) };
+}
+
+fn pager_error_label(e: &PagerExecutionError) -> String {
+    match e {
+        PagerExecutionError::NextPageError(n) => error_label(&NextRowError::NextPageError(n.clone())),
+        PagerExecutionError::PrepareError(_) => "PrepareError".to_owned(),
+        PagerExecutionError::SerializationError(_) => "SerializationError".to_owned(),
+        _ => "OtherPagerExecutionError".to_owned(),
+    }
 }
 
 fn error_label(e: &NextRowError) -> String {
@@ -258,7 +367,7 @@ struct Observed {
 
 async fn run_case(case: &Case, ctx: &mut Ctx) -> String {
     // (re)build what is missing
-    let mut env = ENV.with(|e| e.borrow_mut().take());
+    let mut env = if case.session { SENV.with(|e| e.borrow_mut().take()) } else { ENV.with(|e| e.borrow_mut().take()) };
     if env.is_none() {
         let script = Arc::new(Mutex::new(Script::default()));
         let node = MockNode::start(false, None, handler(Arc::clone(&script))).await;
@@ -275,23 +384,51 @@ async fn run_case(case: &Case, ctx: &mut Ctx) -> String {
     }
     env.node.log.lock().unwrap().clear();
     if env.conn.is_none() {
-        let conn = match VerifConn::open(env.node.addr, VerifConnOptions::default()).await {
-            Ok(c) => c,
-            Err(e) => {
-                ctx.fail(format!("harness: cannot open connection: {e}"));
-                return "HARNESS-ERROR".to_owned();
-            }
-        };
         let mut st = Statement::new(QUERY);
         st.set_page_size(5000);
-        let prepared = match conn.prepare(&st).await {
-            Ok(p) => p,
-            Err(e) => {
-                ctx.fail(format!("harness: cannot prepare: {e}"));
-                return "HARNESS-ERROR".to_owned();
-            }
-        };
-        env.conn = Some((conn, prepared));
+        if case.session {
+            // a one-node cluster: the control connection's system.peers / system.local are answered by
+            // the handler; default execution profile (DefaultRetryPolicy, no speculative execution)
+            let session = match SessionBuilder::new()
+                .known_node_addr(env.node.addr)
+                .fetch_schema_metadata(false)
+                .build()
+                .await
+            {
+                Ok(s) => s,
+                Err(e) => {
+                    ctx.fail(format!("harness: cannot build session: {e}"));
+                    return "HARNESS-ERROR".to_owned();
+                }
+            };
+            let prepared = match session.prepare(st).await {
+                Ok(p) => p,
+                Err(e) => {
+                    ctx.fail(format!("harness: cannot prepare: {e}"));
+                    return "HARNESS-ERROR".to_owned();
+                }
+            };
+            env.conn = Some((Client::Sess(session), prepared));
+        } else {
+            let conn = match VerifConn::open(env.node.addr, VerifConnOptions::default()).await {
+                Ok(c) => c,
+                Err(e) => {
+                    ctx.fail(format!("harness: cannot open connection: {e}"));
+                    return "HARNESS-ERROR".to_owned();
+                }
+            };
+            let prepared = match conn.prepare(&st).await {
+                Ok(p) => p,
+                Err(e) => {
+                    ctx.fail(format!("harness: cannot prepare: {e}"));
+                    return "HARNESS-ERROR".to_owned();
+                }
+            };
+            env.conn = Some((Client::Conn(conn), prepared));
+        }
+        // only page requests of the case proper are to be recorded
+        let mut sc = env.script.lock().unwrap();
+        sc.execs.clear();
     }
     let has_timeout_fault = case.pages.iter().any(|p| p.faults.contains(&'T'));
     let dirty = case.pages.iter().any(|p| p.faults.contains(&'T') || p.faults.contains(&'c'));
@@ -304,13 +441,27 @@ async fn run_case(case: &Case, ctx: &mut Ctx) -> String {
     let consumer = case.consumer;
     let body = async {
         let mut obs = Observed { delivered: Vec::new(), fin: String::new(), dropped_at_execs: None };
-        let pager = match conn.execute_iter(prepared, SerializedValues::new()).await {
+        let pager = match conn {
+            Client::Conn(c) => c.execute_iter_raw(prepared, SerializedValues::new()).await.map_err(|e| error_label(&e)),
+            Client::Sess(s) => s.execute_iter(prepared, ()).await.map_err(|e| pager_error_label(&e)),
+        };
+        let pager = match pager {
             Ok(p) => p,
             Err(label) => {
                 obs.fin = format!("ctor:{label}");
                 return obs;
             }
         };
+        if pager.column_specs().len() == 0 {
+            // the session pager's "empty stream" for a non-Rows first response has no columns
+            let mut stream = pager.rows_stream::<scylla::value::Row>().unwrap();
+            obs.fin = match stream.next().await {
+                None => "end".to_owned(),
+                Some(Ok(_)) => "row-without-columns".to_owned(),
+                Some(Err(e)) => format!("err:{}", error_label(&e)),
+            };
+            return obs;
+        }
         let mut stream = match pager.rows_stream::<(i32,)>() {
             Ok(s) => s,
             Err(_) => {
@@ -338,7 +489,7 @@ async fn run_case(case: &Case, ctx: &mut Ctx) -> String {
                         for _ in 0..3 {
                             tokio::task::yield_now().await;
                         }
-                        if obs.delivered.len() % 7 == 3 {
+                        if obs.delivered.len() % 37 == 3 {
                             tokio::time::sleep(Duration::from_millis(1)).await;
                         }
                     }
@@ -433,9 +584,30 @@ async fn run_case(case: &Case, ctx: &mut Ctx) -> String {
         }
     }
     // 3. the expected end of the story, from the script alone
+    // which faults are final is the documented behaviour of the two pagers: the single-connection pager
+    // never retries (only the transparent re-prepare after UNPREPARED, once per attempt); the session
+    // pager's default retry policy retries a digest-only ReadTimeout (`R`) once per page on the same node
+    let session = case.session;
     let fatal_page = case.pages.iter().position(|p| {
-        let f: String = p.faults.iter().filter(|c| **c != 'd').collect();
-        f.contains(['o', 'r', 's', 'c', 'T', 'v']) || f.contains("uu")
+        let mut unprepared = false;
+        let mut read_retry = false;
+        for c in p.faults.iter() {
+            match c {
+                'd' => {}
+                'u' => {
+                    if unprepared {
+                        return true;
+                    }
+                    unprepared = true;
+                }
+                'R' if session && !read_retry => {
+                    read_retry = true;
+                    unprepared = false;
+                }
+                _ => return true,
+            }
+        }
+        false
     });
     let last_page = case.pages.iter().position(|p| p.state.is_none()).unwrap_or(case.pages.len());
     let rows_before = |k: usize| -> Vec<i32> {
@@ -443,7 +615,19 @@ async fn run_case(case: &Case, ctx: &mut Ctx) -> String {
         (0..n as i32).collect()
     };
     let fatal_page = fatal_page.filter(|k| *k <= last_page);
-    if obs.fin != "dropped" {
+    // a non-Rows RESULT as the FIRST response of a session pager is, by design (pager.rs 436-454, issue
+    // #631: non-SELECT statements run through the iterator API), an empty stream and not an error
+    let void_first = session && {
+        let f: Vec<char> = case.pages[0].faults.iter().copied().filter(|c| *c != 'd').collect();
+        matches!(f.as_slice(), ['v', ..] | ['u', 'v', ..] | ['R', 'v', ..] | ['u', 'R', 'v', ..] | ['R', 'u', 'v', ..])
+    };
+    if void_first && obs.fin != "dropped" {
+        if obs.fin != "end" || !obs.delivered.is_empty() {
+            ctx.fail(format!("session pager, non-Rows first response: expected an empty stream, got {} rows, fin={}", obs.delivered.len(), obs.fin));
+        }
+    }
+    let fatal_page = if void_first { None } else { fatal_page };
+    if obs.fin != "dropped" && !void_first {
         match fatal_page {
             None => {
                 let all = rows_before(last_page + 1);
@@ -506,7 +690,15 @@ async fn run_case(case: &Case, ctx: &mut Ctx) -> String {
     if dirty {
         env.conn = None;
     }
-    ENV.with(|e| *e.borrow_mut() = Some(env));
+    if case.session {
+        if dirty {
+            // the pool has lost its connection: start a fresh cluster next time
+            return out;
+        }
+        SENV.with(|e| *e.borrow_mut() = Some(env));
+    } else {
+        ENV.with(|e| *e.borrow_mut() = Some(env));
+    }
     out
 }
 
@@ -586,51 +778,78 @@ fn compositions(max_len: usize, max_size: usize, max_rows: usize) -> Vec<Vec<usi
     out
 }
 
-const FATAL: [&str; 6] = ["o", "r", "s", "c", "v", "uu"];
-
 pub fn generate(rng: &mut Rng, tier: Tier, emit: &mut dyn FnMut(String)) {
-    let thorough = tier == Tier::Thorough;
+    gen_family(rng, tier == Tier::Thorough, false, emit);
+    gen_family(rng, tier == Tier::Thorough, true, emit);
+}
+
+fn gen_family(rng: &mut Rng, thorough: bool, sess: bool, emit: &mut dyn FnMut(String)) {
+    let fmt = |skip: bool, c: Consumer, p: &[PageSpec]| if sess { fmt_sess_case(skip, c, p) } else { fmt_case(skip, c, p) };
     let mut flip = false;
     let mut skip = || {
         flip = !flip;
         flip
     };
     // 1. exhaustive: every split of <= 6 rows into pages (empty pages, empty last page included)
-    let (len1, size1) = if thorough { (6, 6) } else { (5, 3) };
+    let (len1, size1) = match (thorough, sess) {
+        (true, false) => (6, 6),
+        (true, true) => (5, 3),
+        (false, false) => (5, 3),
+        (false, true) => (4, 2),
+    };
     for sizes in compositions(len1, size1, 6) {
         let sts = states(rng, sizes.len(), false);
-        emit(fmt_case(skip(), Consumer::Eager, &build(&sizes, &sts, &[])));
+        emit(fmt(skip(), Consumer::Eager, &build(&sizes, &sts, &[])));
     }
     // all positive compositions of 0..=6 rows exactly
     for sizes in compositions(6, 6, 6) {
         if sizes.iter().all(|s| *s > 0) {
             let sts = states(rng, sizes.len(), false);
-            emit(fmt_case(skip(), Consumer::Slow, &build(&sizes, &sts, &[])));
+            emit(fmt(skip(), Consumer::Slow, &build(&sizes, &sts, &[])));
         }
     }
     // 2. exhaustive: one fault of every kind at every page of every small split; every drop point
-    let (len2, size2, rows2) = if thorough { (5, 2, 6) } else { (4, 2, 5) };
+    let (len2, size2, rows2) = match (thorough, sess) {
+        (true, false) => (5, 2, 6),
+        (true, true) => (4, 2, 5),
+        (false, false) => (4, 2, 5),
+        (false, true) => (3, 2, 4),
+    };
+    let fault_kinds: &[&str] = if sess {
+        &["u", "o", "c", "v", "uu", "R", "RR", "uR", "Ru", "RuR", "uRu", "r", "s", "dR"]
+    } else {
+        &["u", "o", "c", "v", "uu", "du", "ud", "r", "s", "R"]
+    };
     for sizes in compositions(len2, size2, rows2) {
         let n = sizes.len();
         let total: usize = sizes.iter().sum();
         for k in 0..n {
-            for f in ["u", "o", "c", "v", "uu", "du", "ud", "r", "s"] {
-                if !thorough && (f == "r" || f == "s" || f == "ud") && (k + total) % 3 != 0 {
+            for f in fault_kinds {
+                if !thorough && ["r", "s", "ud", "R", "RuR", "uRu", "dR"].contains(f) && !(sess && *f == "R") && (k + total) % 3 != 0 {
                     continue;
+                }
+                if sess && *f == "c" && (k + total) % 4 != 0 {
+                    continue; // every such case rebuilds the mock cluster
                 }
                 let mut faults = vec![vec![]; n];
                 faults[k] = f.chars().collect();
                 let sts = states(rng, n, false);
-                emit(fmt_case(skip(), Consumer::Eager, &build(&sizes, &sts, &faults)));
+                emit(fmt(skip(), Consumer::Eager, &build(&sizes, &sts, &faults)));
             }
         }
         for k in 0..=total {
             let sts = states(rng, n, false);
-            emit(fmt_case(skip(), Consumer::Drop(k), &build(&sizes, &sts, &[])));
+            emit(fmt(skip(), Consumer::Drop(k), &build(&sizes, &sts, &[])));
         }
     }
     // 3. random: 0..200 rows, random splits, empty pages, long states, repeated states, faults, consumers
-    let n_random = if thorough { 60_000 } else { 3_000 };
+    let n_random = match (thorough, sess) {
+        (true, false) => 60_000,
+        (true, true) => 20_000,
+        (false, false) => 6_000,
+        (false, true) => 2_000,
+    };
+    let fatal: &[&str] = if sess { &["o", "r", "s", "v", "uu", "RR", "o", "uu"] } else { &["o", "r", "s", "c", "v", "uu", "R"] };
     for _ in 0..n_random {
         let total = match rng.below(6) {
             0 => rng.below(8) as usize,
@@ -677,12 +896,14 @@ pub fn generate(rng: &mut Rng, tier: Tier, emit: &mut dyn FnMut(String)) {
         match rng.below(10) {
             0..=2 => {}
             3..=5 => {
-                // harmless faults only: retried UNPREPARED, delays
+                // harmless faults only: retried UNPREPARED / (session) retried ReadTimeout, delays
                 for f in faults.iter_mut() {
-                    match rng.below(6) {
+                    match rng.below(8) {
                         0 => *f = vec!['u'],
                         1 => *f = vec!['d'],
                         2 => *f = vec!['d', 'u'],
+                        3 if sess => *f = vec!['R'],
+                        4 if sess => *f = if rng.bool() { vec!['u', 'R'] } else { vec!['R', 'u'] },
                         _ => {}
                     }
                 }
@@ -691,15 +912,15 @@ pub fn generate(rng: &mut Rng, tier: Tier, emit: &mut dyn FnMut(String)) {
                 let k = rng.below(n as u64) as usize;
                 for (i, f) in faults.iter_mut().enumerate().take(k) {
                     if rng.chance(1, 5) {
-                        *f = if i % 2 == 0 { vec!['u'] } else { vec!['d'] };
+                        *f = if i % 2 == 0 { vec!['u'] } else if sess { vec!['R'] } else { vec!['d'] };
                     }
                 }
-                faults[k] = rng.pick(&FATAL).chars().collect();
-                if rng.chance(1, 4) {
+                faults[k] = rng.pick(fatal).chars().collect();
+                if sess && k == 0 && faults[k] == ['v'] {
+                    faults[k] = vec!['o'];
+                }
+                if rng.chance(1, 4) && faults[k] != ['u', 'u'] {
                     faults[k].insert(0, 'u');
-                    if faults[k] == ['u', 'u', 'u'] {
-                        faults[k].pop();
-                    }
                 }
             }
         }
@@ -712,16 +933,21 @@ pub fn generate(rng: &mut Rng, tier: Tier, emit: &mut dyn FnMut(String)) {
             }),
             _ => Consumer::Eager,
         };
-        emit(fmt_case(skip(), consumer, &build(&sizes, &sts, &faults)));
+        emit(fmt(skip(), consumer, &build(&sizes, &sts, &faults)));
     }
     // 4. client-side request timeout on page k (real time: few cases)
-    let n_timeout = if thorough { 48 } else { 8 };
+    let n_timeout = match (thorough, sess) {
+        (true, false) => 48,
+        (true, true) => 16,
+        (false, false) => 8,
+        (false, true) => 3,
+    };
     for i in 0..n_timeout {
         let n = 1 + (i % 4);
         let sizes: Vec<usize> = (0..n).map(|_| rng.below(4) as usize).collect();
         let sts = states(rng, n, false);
         let mut faults = vec![vec![]; n];
         faults[i % n] = vec!['T'];
-        emit(fmt_case(skip(), if i % 3 == 0 { Consumer::Slow } else { Consumer::Eager }, &build(&sizes, &sts, &faults)));
+        emit(fmt(skip(), if i % 3 == 0 { Consumer::Slow } else { Consumer::Eager }, &build(&sizes, &sts, &faults)));
     }
 }
